@@ -230,7 +230,12 @@ def run(case, rec):
             for di, d in enumerate(datas):
                 est = make(damping)
                 dd = (d[:npts], d[npts:]) if vector else d
-                fit = call(rec, est.fit, (e, n), dd, w)
+                if npts % 2 == 0 and (di + len(case["pts"])) % 3 == 0:
+                    # the same points, data and weights as 2 x n/2 arrays (gridded input): seed C02-13, components stacked row-wise
+                    r2 = lambda a: None if a is None else (tuple(x.reshape(2, -1) for x in a) if isinstance(a, tuple) else a.reshape(2, -1))
+                    fit = call(rec, est.fit, (e.reshape(2, -1), n.reshape(2, -1)), r2(dd), r2(w))
+                else:
+                    fit = call(rec, est.fit, (e, n), dd, w)
                 if raised(fit):
                     rec.check(False, "%s fit raised %r" % (kind, fit))
                     return
